@@ -211,7 +211,7 @@ Definition pstep (reads : nat) (t : ppc) (s : psh) : ppc * psh :=
                 else (ORet false, upd (p_closed s) (p_dlock s) false (p_reader s) (p_rclose s) (p_panics s))   (* ErrReaderNil *)
   | OUse 0 => (ORet true, upd (p_closed s) (p_dlock s) false (p_reader s) (p_rclose s) (p_panics s))
   | OUse (S k) => if p_reader s then (OUse k, s)
-                  else (OPanicked, upd (p_closed s) (p_dlock s) (p_rlock s) (p_reader s) (p_rclose s) (S (p_panics s)))
+                  else (OPanicked, upd (p_closed s) (p_dlock s) false (p_reader s) (p_rclose s) (S (p_panics s)))   (* nil-interface call: panic; the deferred readLock.Unlock runs *)
   | PClosed _ | ORet _ | OPanicked => (t, s)
   end.
 Definition pinit : psh := {| p_closed := false; p_dlock := false; p_rlock := false; p_reader := true; p_rclose := 0; p_panics := 0 |}.
